@@ -361,11 +361,11 @@ func (g *gen) readOp(repo int) Op {
 			op.Obj = g.anyObj(func(o *Obj) bool { return o.isManifest() })
 		}
 		op.Algo = g.refAlgo()
-		op.Accept = g.r.str("exact", "list", "multi", "params", "upper", "all", "all")
+		op.Accept = g.r.str("exact", "list", "multi", "params", "upper", "all", "all", "nospace")
 	default:
 		op.Mode = "tag"
 		op.Tag = g.anyTag(repo)
-		op.Accept = g.r.str("exact", "list", "multi", "params", "all", "all", "other")
+		op.Accept = g.r.str("exact", "list", "multi", "params", "all", "all", "other", "nospace")
 	}
 	if g.r.chance(35) {
 		sz := len(g.p.Objs[op.Obj%len(g.p.Objs)].data)
@@ -503,10 +503,22 @@ func planC01(prop string, seed uint64, tier string, idx int) *Plan {
 		g.p.Objs = append(g.p.Objs, &Obj{Kind: "raw", Raw: `{"schemaVersion":2,"mediaType":"` + mtOCIIndex + `","manifests":[{"mediaType":"` + mtOCIManifest + `","digest":"` + d + `","size":` + fmt.Sprint(g.r.pick(2, 30, 300)) + `}]}`, Subject: -1})
 		travIdx = append(travIdx, len(g.p.Objs)-1)
 	}
+	// an index that describes the image with the wrong size (nothing verifies the sizes a client writes into an index)
+	materialise(g.p.Objs)
+	var wrongSize []int
+	for _, sz := range []int{len(g.p.Objs[img].data) - 1, len(g.p.Objs[img].data) / 2, 1, len(g.p.Objs[img].data) + 7} {
+		g.p.Objs = append(g.p.Objs, &Obj{Kind: "raw", Raw: `{"schemaVersion":2,"mediaType":"` + mtOCIIndex + `","manifests":[{"mediaType":"` + g.p.Objs[img].mediaType() + `","digest":"` + g.p.Objs[img].digest("sha256") + `","size":` + fmt.Sprint(sz) + `}]}`, Subject: -1})
+		wrongSize = append(wrongSize, len(g.p.Objs)-1)
+	}
 	n := g.scale(g.r.between(4, 14))
 	for i := 0; i < n; i++ {
 		repo := g.r.intn(g.nrepos())
-		switch g.r.intn(14) {
+		switch g.r.intn(15) {
+		case 14:
+			g.pushManifest(repo, img, "", false)
+			g.add(Op{K: "man", Repo: repo, Obj: wrongSize[g.r.intn(len(wrongSize))], Tag: "sz", CT: "own"})
+			g.add(Op{K: "get", Mode: "man", Repo: repo, Obj: img, Accept: "all", Head: g.r.chance(20)})
+			g.add(Op{K: "get", Mode: "tag", Repo: repo, Tag: "sz", Accept: g.r.str("other", "all")})
 		case 12:
 			tag := g.r.str("multi", "latest")
 			g.pushManifest(repo, tidx, tag, false)
@@ -686,7 +698,11 @@ func planC03(prop string, seed uint64, tier string, idx int) *Plan {
 		case 12:
 			g.add(Op{K: "get", Mode: "tag", Repo: repo, Tag: g.anyTag(repo), Accept: "all", Head: g.r.chance(30)})
 		default:
-			if m, ok := g.pushedMan(repo); ok {
+			if g.p.Knobs.Store == "dir" && g.r.chance(35) {
+				// what the tags are is read from index.json again
+				g.add(Op{K: "restart"})
+				g.add(g.tagsOp(repo))
+			} else if m, ok := g.pushedMan(repo); ok {
 				g.add(Op{K: "get", Mode: "man", Repo: repo, Obj: m, Accept: "all"})
 			}
 		}
@@ -721,6 +737,15 @@ func planC04(prop string, seed uint64, tier string, idx int) *Plan {
 		`{"schemaVersion":2,"config":5,"layers":"x"}`,
 		`{"schemaVersion":2,"mediaType":"` + mtOCIIndex + `","manifests":[{"mediaType":"` + mtOCIManifest + `","digest":"sha256:0000","size":1}]}`,
 		`{"schemaVersion":2,"mediaType":"` + mtOCIManifest + `","config":{"mediaType":"` + mtOCIConfig + `","digest":"` + digestOf("sha256", []byte("nope")) + `","size":4},"layers":[]}`,
+	}
+	// a valid manifest followed by more bytes is not a manifest
+	materialise(g.p.Objs)
+	gb := string(g.p.Objs[good].data)
+	raws = append(raws, gb+"}", gb+gb, gb+` {"x":1}`, gb+"\x00")
+	// descriptors whose "digest" is a path: to a blob of another repository, to the index of this one
+	hexCfg := strings.TrimPrefix(g.p.Objs[g.p.Objs[good].Config].digest("sha256"), "sha256:")
+	for _, d := range []string{"sha256:../../../" + g.p.Repos[len(g.p.Repos)-1] + "/blobs/sha256/" + hexCfg, "sha256:../../index.json", "sha256:../sha256/" + hexCfg} {
+		raws = append(raws, `{"schemaVersion":2,"mediaType":"`+mtOCIManifest+`","config":{"mediaType":"`+mtOCIConfig+`","digest":"`+d+`","size":`+fmt.Sprint(g.p.Objs[g.p.Objs[good].Config].Size)+`},"layers":[]}`)
 	}
 	var rawIdx []int
 	for _, r := range raws {
@@ -934,6 +959,10 @@ func planC08(prop string, seed uint64, tier string, idx int) *Plan {
 			}
 			if g.r.chance(10) {
 				op.S = "mount-nofrom"
+				op.Algo2 = g.refAlgo()
+			} else if g.r.chance(15) {
+				op.S = "mount-from"
+				op.B = g.r.intn(g.nrepos())
 				op.Algo2 = g.refAlgo()
 			}
 			g.add(op)
